@@ -1,7 +1,7 @@
 #!/bin/sh
 # usage: try_patch.sh <patch.diff|-R:commit> <PROP> [tier]   -- runs a check against a scratch copy of /repo/src with the patch applied
 set -e
-P="$1"; PROP="$2"; TIER="${3:-quick}"
+P="$1"; case "$P" in -R:*) ;; /*) ;; *) P="$(pwd)/$P" ;; esac; PROP="$2"; TIER="${3:-quick}"
 D=$(mktemp -d /tmp/mutXXXXXX)
 cp -r /repo/src "$D/src"
 case "$P" in
